@@ -681,3 +681,56 @@ package fsm
 //@   requires p != nil && r != nil
 //@   before fsm.snapshotRecoverer.recover assert [C08.dispatch] (r.fmtByte == 0 ==> typeIs(rc, *snapshot)) && (r.fmtByte == 1 ==> typeIs(rc, *checkpoint))
 //@   modifies family(G_any_vHas), family(G_any_dHas), family(G_any_dCur), family(G_any_vCur), family(G_any_updName), family(G_any_opened), family(G_any_rest)
+
+// ---- snapshot format: prepare pins a pebble snapshot, save streams exactly that view
+
+//@ import sstable "github.com/cockroachdb/pebble/sstable"
+//@ import runtime "runtime"
+//@ trustframe "github.com/cockroachdb/pebble/sstable" "runtime" "archive/tar" "path" "path/filepath"
+// pairs handed to the SST writers, process-wide ghost: number, and the last pair
+//@ ghostfield any.nset Int
+//@ ghostfield any.lastKey Bytes
+//@ ghostfield any.lastVal Bytes
+//@ func sstable.(*Writer).Set
+//@   assumed
+//@   params w, key, value
+//@   ensures world.nset == old(world.nset) + 1 && world.lastKey == bytesOf(key) && world.lastVal == bytesOf(value)
+//@   modifies world.nset, world.lastKey, world.lastVal
+//@ func sstable.NewWriter
+//@   assumed
+//@   ensures result != nil && fresh(result)
+//@   modifies nothing
+//@ func pebble.WriterOptions
+//@   assumed
+//@   modifies nothing
+//@ func writeLenDelimited
+//@   assumed
+//@   modifies to.sdata, to.slen, to.nmsg, to.msg, to.fmtByte
+//@ func (*snapshotContext).Close
+//@   assumed
+//@   modifies nothing
+//@ func (*snapshot).save$1
+//@   requires *iter != nil && *s != nil && (*s).fsm != nil && (*s).fsm.log != nil && *snapshot != nil
+//@   modifies (*iter).onKey
+
+// prepare: the context is a pebble snapshot of the DB taken now - a stable view, never the live DB
+//@ func (*snapshot).prepare
+//@   results ctx, err
+//@   requires s != nil && s.fsm != nil && s.fsm.pebble.v != nil
+//@   ensures [C08.pit.prepare] err == nil ==> typeIs(ctx, *snapshotContext) && asType(ctx, *snapshotContext) != nil && asType(ctx, *snapshotContext).Snapshot != nil && asType(ctx, *snapshotContext).Snapshot.vP == old(s.fsm.pebble.v.vP) && asType(ctx, *snapshotContext).Snapshot.vV == old(s.fsm.pebble.v.vV)
+//@   modifies s.fsm.pebble.v.vP, s.fsm.pebble.v.vV
+
+// save: walks ALL keys of the prepared snapshot's view (user pairs and bookkeeping keys alike),
+// each exactly once and in order, and hands exactly that key and that view's value to the SST
+// writer; it never iterates the live DB, so writes applied while saving cannot leak in.
+//@ func (*snapshot).save
+//@   params s, ctx, w, stopc
+//@   results err
+//@   requires s != nil && s.fsm != nil && s.fsm.log != nil && w != nil && typeIs(ctx, *snapshotContext) && asType(ctx, *snapshotContext) != nil && asType(ctx, *snapshotContext).Snapshot != nil
+//@   before pebble.(*DB).NewIter assert [C08.save.pit] false
+//@   ensures [C08.save.all] err == nil ==> world.nset - old(world.nset) == cnt(asType(ctx, *snapshotContext).Snapshot.vP, bytes_empty(), Btop())
+//@   modifies world.nset, world.lastKey, world.lastVal, family(G_any_sdata), family(G_any_slen), w.nmsg, w.msg, w.fmtByte, allfields(bytes.Buffer)
+//@   loop 0 invariant iter != nil && fresh(iter) && iter.bounded && iter.vP == asType(ctx, *snapshotContext).Snapshot.vP && iter.vV == asType(ctx, *snapshotContext).Snapshot.vV && iter.lo == bytes_empty() && iter.hi == Btop()
+//@   loop 0 invariant 0 <= iter.pos && iter.pos <= cnt(iter.vP, iter.lo, iter.hi) && iter.onKey == (iter.pos < cnt(iter.vP, iter.lo, iter.hi)) && (iter.onKey ==> iter.cur == nth(iter.vP, iter.lo, iter.hi, iter.pos))
+//@   loop 0 invariant world.nset - old(world.nset) == iter.pos && sstWriter != nil && memfile != nil && fresh(memfile)
+//@   loop 0 step [C08.save.step] iter.pos == prev(iter.pos) + 1 && world.nset == prev(world.nset) + 1 && world.lastKey == prev(iter.cur) && world.lastVal == iter.vV[prev(iter.cur)]
